@@ -100,6 +100,7 @@ fn typed_build_line(_ty: &str, _f: [&str; 4], _qs: &[(&str, &str)]) -> Option<St
 }
 
 const SCALAR_CHUNK: usize = 8192;
+const LADDER_CHUNK: usize = 2048;
 
 #[derive(Default)]
 struct ChunkOut {
@@ -145,6 +146,9 @@ fn chunk_ids(tier: Tier) -> Vec<String> {
     }
     for i in 0..(crate::sweeps::N_SCALARS as usize).div_ceil(SCALAR_CHUNK) {
         ids.push(format!("scalar:{i}"));
+    }
+    for i in 0..lens::ladder(tier).len().div_ceil(LADDER_CHUNK) {
+        ids.push(format!("ladder:{i}"));
     }
     ids
 }
@@ -208,6 +212,15 @@ fn run_chunk(id: &str, tier: Tier, verbose: bool) -> ChunkOut {
                         out.push(&input, g, t, verbose);
                     }
                 }
+            }
+        },
+        "ladder" => {
+            let all = lens::ladder(tier);
+            let k: usize = parts[1].parse().unwrap();
+            for s in &all[k * LADDER_CHUNK..((k + 1) * LADDER_CHUNK).min(all.len())] {
+                let g = generic_parse_line(s);
+                let t = typed_parse_line(s);
+                out.push(s, g, t, verbose);
             }
         },
         "spell" => {
